@@ -101,6 +101,9 @@ class LinForm:
         return " ".join(parts)
 
 
+MAX_TERMS = 4      # Fourier-Motzkin combinations with more variables than this are dropped (sound: fewer constraints)
+
+
 def normalize(lf, kind):
     """divide by gcd of coefficients (tightening the constant for 'le' over integers)"""
     if not lf.terms:
@@ -321,7 +324,7 @@ class Cons:
                     b = -l.terms[var]
                     comb = u.scale(b) + l.scale(a)
                     comb = normalize(comb, "le")
-                    if not comb.is_const() and len(comb.terms) <= 4:
+                    if not comb.is_const() and len(comb.terms) <= MAX_TERMS:
                         keep.add(comb)
         self.le = keep
 
@@ -339,6 +342,16 @@ class Cons:
             return True
         if not lf.terms:
             return lf.const <= 0
+        # syntactic: a stored constraint with the same linear part and a constant at least as tight
+        n = normalize(lf, "le")
+        old = self.le.d.get(LeSet._key(n))
+        if old is not None and old.const >= n.const:
+            return True
+        for e in self.eq:
+            if len(e.terms) == len(lf.terms):
+                for sgn in (e, -e):
+                    if sgn.terms == n.terms and sgn.const >= n.const:
+                        return True
         # refutation of  cons ∧ lf >= 1   i.e.  -lf + 1 <= 0
         neg = (-lf) + 1
         return self._infeasible_with(neg, bounds_of)
